@@ -260,6 +260,71 @@ func runC05(c *core.Ctx) {
 					fmt.Sprintf("with %s %s the generic twin (%s) returns %s but the interface{} twin (%s) returns %s", state, pr.gen.Params[j].Name(), p.Pos(pr.gen.Pos()), rg, p.Pos(pr.ifc.Pos()), ri))
 			}
 		}
+		// combinations: two or more operands (the receiver of a method included) empty / nil at the same time - a guard
+		// order that differs between the twins only shows when both guards can fire
+		var ops []int
+		for j := range pr.gen.Params {
+			if isMethod && j == 0 || isOperand(pr.gen.Params[j].Type()) && isOperand(pr.ifc.Params[j].Type()) {
+				ops = append(ops, j)
+			}
+		}
+		if len(ops) < 2 || len(ops) > 3 {
+			continue
+		}
+		states := []string{"nonempty", "empty", "nil"}
+		var combos [][]string
+		var gen func(cur []string)
+		gen = func(cur []string) {
+			if len(cur) == len(ops) {
+				n := 0
+				for _, st := range cur {
+					if st != "nonempty" {
+						n++
+					}
+				}
+				if n >= 2 {
+					combos = append(combos, append([]string{}, cur...))
+				}
+				return
+			}
+			for _, st := range states {
+				if st == "nil" && isMethod && ops[len(cur)] == 0 {
+					continue // a nil receiver is outside the property's operands
+				}
+				gen(append(cur, st))
+			}
+		}
+		gen(nil)
+		for _, combo := range combos {
+			mk := func(f *ssa.Function) []core.EmpVal {
+				var args []core.EmpVal
+				for i := range f.Params {
+					st := "top"
+					for k, j := range ops {
+						if j == i {
+							st = combo[k]
+						}
+					}
+					args = append(args, core.EmpVal{Kind: st, Id: -1})
+				}
+				return args
+			}
+			rg := classify(core.EvalEmpty(p, pr.gen, mk(pr.gen)), isMethod)
+			ri := classify(core.EvalEmpty(p, pr.ifc, mk(pr.ifc)), isMethod)
+			var parts []string
+			for k, j := range ops {
+				if combo[k] != "nonempty" {
+					name := fmt.Sprintf("arg%d", j)
+					if isMethod && j == 0 {
+						name = "recv"
+					}
+					parts = append(parts, name+"="+combo[k])
+				}
+			}
+			key := pr.key + "/" + strings.Join(parts, ",")
+			c.Check(rg == ri, "R1", key, p.Pos(pr.ifc.Pos()), "both return "+rg,
+				fmt.Sprintf("with %s the generic twin (%s) returns %s but the interface{} twin (%s) returns %s", strings.Join(parts, ", "), p.Pos(pr.gen.Pos()), rg, p.Pos(pr.ifc.Pos()), ri))
+		}
 	}
 }
 
